@@ -145,6 +145,14 @@ def laws_binwise_patchwise(L, tag, x, get_arr, rng, rebuild):
             eq_arr(get_arr(x.bins[i]), full[as_slice(i, nb)])
             and np.array_equal(x.bins[i].binning.edges, x.binning.edges[as_slice(i, nb).start: as_slice(i, nb).stop + 1])
         ) else f"bins[{i}] differs from sub-array")
+    for i in ints[:3] + [-1]:
+        # an index computed with numpy (argmax, arange, ...) selects the same bin as the builtin int
+        L.check(f"{tag}.bins[numpy-int]", lambda i=i: None if (
+            eq_arr(get_arr(x.bins[np.int64(i)]), get_arr(x.bins[int(i)])) and eq_arr(get_arr(x.bins[np.intp(i)]), full[as_slice(i, nb)])
+            and x.bins[np.int32(i)].binning == x.bins[int(i)].binning) else f"bins[np.int64({i})] differs from bins[{i}]")
+    for i in index_sets(npatch, rng)[0][:3]:
+        L.check(f"{tag}.patches[numpy-int]", lambda i=i: None if eq_arr(get_arr(x.patches[np.int64(i)]), get_arr(x.patches[int(i)]))
+                else f"patches[np.int64({i})] differs from patches[{i}]")
     for s in slices:
         def f(s=s):
             sub = x.bins[s]
@@ -234,6 +242,9 @@ def laws_counts(L, rng, nb, npatch, auto):
     L.check(f"{tag}.neq-auto", lambda: None if a != PatchedCounts(binning, a.counts, auto=not auto) else "auto ignored by ==")
     L.check(f"{tag}.neq-binning", lambda: None if a != PatchedCounts(flipped, a.counts, auto=auto) else "closed ignored by ==")
     L.check(f"{tag}.immutability", lambda: None if eq_arr((a + b).counts - b.counts, (a.counts + b.counts) - b.counts) else "operands mutated")
+    a_np = PatchedCounts(binning, a.counts.copy(), auto=np.bool_(auto))  # the flag as numpy delivers it (e.g. read from a file)
+    L.check(f"{tag}.eq-numpy-bool-flag", lambda: None if a == a_np and a_np == a and a.is_compatible(a_np) and eq_arr((a + a_np).counts, a.counts * 2)
+            else "containers differing only in bool vs numpy.bool_ flag are unequal / incompatible")
     frozen = {k: snapshot(v) for k, v in (("a", a), ("b", b), ("c", c))}
     laws_inplace(L, tag, [a, b, c], lambda p, q: p + q)
     laws_binwise_patchwise(L, tag, a, lambda o: o.get_array(), rng, None)
@@ -260,6 +271,10 @@ def laws_counts(L, rng, nb, npatch, auto):
     pw.sum_weights2[0, 0] += 1.0
     L.check(f"{tag}.neq-perturbed", lambda: None if w != pw else "perturbed compares equal")
     L.check(f"{tag}.neq-auto", lambda: None if w != PatchedSumWeights(binning, sw1, sw2, auto=not auto) else "auto ignored by ==")
+    w_np = PatchedSumWeights(binning, sw1.copy(), sw2.copy(), auto=np.bool_(auto))
+    L.check(f"{tag}.eq-numpy-bool-flag", lambda: None if w == w_np and w_np == w else "bool vs numpy.bool_ flag makes equal containers unequal")
+    L.check("NormalisedCounts.add-numpy-bool-flag", lambda: None if eq_arr((NormalisedCounts(a, w) + NormalisedCounts(a_np, w_np)).counts.counts, a.counts * 2)
+            and NormalisedCounts(a, w) == NormalisedCounts(a_np, w_np) else "bool vs numpy.bool_ flag breaks + / ==")
     laws_binwise_patchwise(L, tag, w, lambda o: o.get_array(), rng, None)
     L.check(f"{tag}.bins-subarrays", lambda: None if eq_arr(w.bins[0].sum_weights1, sw1[0:1]) and eq_arr(w.bins[0].sum_weights2, sw2[0:1]) else "bins[0] sum_weights differ")
     L.check(f"{tag}.patches-subarrays", lambda: None if eq_arr(w.patches[0:1].sum_weights1, sw1[:, 0:1]) else "patches[0:1] differ")
@@ -421,6 +436,13 @@ def laws_sampled(L, rng, nb):
             sl = as_slice(i, nb)
             L.check(f"{tag}.bins[int]", lambda i=i, sl=sl: None if eq_arr(a.bins[i].data, a.data[sl]) and eq_arr(a.bins[i].samples, a.samples[:, sl])
                     and type(a.bins[i]) is cls else f"bins[{i}] differs")
+        for i in ints[:3] + [-1]:
+            def npint(i=i):
+                for t in (np.int64, np.int32, np.intp):
+                    sub, want = a.bins[t(i)], a.bins[int(i)]
+                    if not (eq_arr(sub.data, want.data) and eq_arr(sub.samples, want.samples) and sub.binning == want.binning and sub == want):
+                        return f"bins[{t.__name__}({i})] differs from bins[{i}] (samples shape {sub.samples.shape} vs {want.samples.shape})"
+            L.check(f"{tag}.bins[numpy-int]", npint)
         for s in slices:
             def f(s=s):
                 sub = a.bins[s]
